@@ -3,7 +3,7 @@
 Real `threading.Thread`s run the real netqasm code.  Exactly one of them runs at a
 time: every thread owns a baton (a raw lock used as a binary semaphore) and only the
 thread that was handed its baton proceeds.  A running thread reaches a *scheduling
-point* at
+point* (= it can be switched out there, in exploration and in replay) at
 
   * every `line` trace event (sys.settrace, installed per thread) inside the traced
     files (socket_hub.py, thread_socket/socket.py, broadcast_channel.py);
@@ -11,31 +11,59 @@ point* at
     per execution by `SchedLock`: the thread becomes *blocked*, i.e. disabled until
     the lock is free - never a real wait).  An acquire of a free lock and a release
     coalesce with the neighbouring line event (nothing shared is touched in between),
-    so they would only duplicate schedules;
-  * `socket_hub.sleep` (module attribute replaced by `_sched_sleep`): the thread
-    yields and stays disabled until another thread has taken a step;
+    so separate points there would only duplicate schedules;
+  * `socket_hub.sleep` (module attribute replaced, once per process, by
+    `_sched_sleep`; `socket_hub.timer` is frozen at 0): the thread yields and stays
+    disabled until another thread has taken a step - or until nobody else can take
+    one (then its timer simply expires and it polls again);
   * the back edge of a sleep-less polling loop (`ThreadSocket.wait`,
     `BroadcastChannelBySockets.recv`; found by parsing the traced sources: every
     `while` whose body never calls `sleep`): one unsuccessful polling round is
     treated exactly like a sleep;
   * its end.
 
-A schedule is a list of deviations `[step, thread]`: "at scheduling decision number
-`step` run `thread`"; everywhere else the default policy applies (continue the
-running thread if it is enabled, else the enabled thread with the lowest index).  A
-deviation that names a disabled / unknown thread or a step that is never reached is
-a hard error (`ScheduleError`), never silently repaired.  After the last deviation
-every alternative of every later decision is recorded with the total number of
-preemptions it would have (switching away from an enabled running thread costs 1,
-switching at a blocking point or at a thread end costs 0); `explore` runs them
-recursively, layer by layer (all schedules with 0 preemptions, then 1, 2, ...), so
-the first counterexample of a kind has the fewest preemptions.
+Schedules.  A schedule is a list of deviations `[step, thread]`: "at scheduling
+decision number `step` run `thread`"; everywhere else the default policy applies
+(continue the running thread if it is enabled, else the next enabled thread in
+round-robin order).  A deviation that names a disabled / unknown thread, or a step
+that is never reached, is a hard error (`ScheduleError`), never silently repaired.
+After the last deviation the alternatives of every later decision are recorded with
+the total cost they would have: switching away from an enabled running thread (a
+preemption) costs 1, a switch at a blocking point (sleep, poll, held lock, thread end)
+and the choice of the starting thread are free.  `explore` runs the alternatives
+recursively, layer by layer (cost 0, then 1, 2, ...), so the first counterexample of a
+kind has the fewest preemptions.
 
-Deadlock  = unfinished threads, none enabled, at least one blocked on a lock.
-Livelock  = unfinished threads, all of them sleepers/pollers, and either nobody else
-            is left to take a step, or each of them has completed a full polling
-            round at the same place without any write to the shared hub state.
+Two things keep the tree finite and small without losing behaviours:
+
+  * Preemption placement (partial-order reduction).  The hub's shared containers are
+    replaced per execution by access-counting subclasses (`CountingSet`, ...), the
+    lock and every `recv_callback` / `conn_lost_callback` invocation count as
+    accesses too.  A preemption of thread T before a segment (line) that performs no
+    such access commutes with that segment, so it is equivalent to the preemption
+    one point later; only preemptions placed directly before a segment that touches
+    shared state (or ends in a sleep / block / thread end) are explored.
+    `Execution(reduce=False)` switches this off; props/c18.py runs that unreduced
+    exploration at a lower bound and requires identical observation sets (audit).
+  * Fairness with >= 3 threads (Musuvathi & Qadeer, Fair stateless model checking,
+    2008): a thread that yields gets lower priority than the threads that were
+    enabled during its whole last round and never ran; and picking another successor
+    than the round-robin one at a blocking point is charged as one deviation (with
+    two threads there is never such a choice, so there the bound is exactly the
+    CHESS preemption bound).
+
+Deadlock  = unfinished threads, none enabled, none of them a sleeper.
+Livelock  = every unfinished thread is a sleeper/poller that has completed a whole
+            polling round at the same place without any write to the shared hub state
+            in between (this is how a lost message manifests: the receiver polls for
+            ever).
 Horizon   = step cap of one execution (reported as a cap, never as coverage).
+
+Determinism: `run_twice` / `explore` replay schedules and compare everything observed
+(`Result.key()`); a divergence raises `Nondeterminism` (a broken check, never a
+VIOLATION).  The cyclic GC is disabled while exploring and run between executions, and
+every execution has its own hub and its own socket subclasses (`SocketWorld`), so no
+finaliser of an old socket can run inside, or touch, a later execution.
 """
 from __future__ import annotations
 
@@ -59,6 +87,10 @@ class ScheduleError(Exception):
 
 class Nondeterminism(ScheduleError):
     """Replaying the same schedule gave a different observation."""
+
+
+class UnscheduledSleep(ScheduleError):
+    """The hub asked for a (real) sleep outside a scheduled thread, e.g. during the harness' final non-blocking drain."""
 
 
 class _Abort(BaseException):
@@ -123,6 +155,13 @@ def init_tracing() -> None:
     for fn, idx in files.items():
         _find_poll_heads(fn, idx)
     _TRACED.update(files)
+    # installed once per process and never undone: the hub can neither really sleep nor look at the clock any more, also
+    # not after an execution (the harness' final drain) or in a late finaliser
+    import netqasm.sdk.classical_communication.thread_socket.socket_hub as hubmod
+    if not callable(getattr(hubmod, "sleep", None)) or not callable(getattr(hubmod, "timer", None)):
+        raise ScheduleError("socket_hub.sleep / socket_hub.timer are gone: the sleep seam moved")
+    hubmod.sleep = _sched_sleep
+    hubmod.timer = _frozen_timer
 
 
 def poll_loops() -> Dict[str, List[int]]:
@@ -185,7 +224,7 @@ def _sched_sleep(_secs: float = 0.0) -> None:
     ex = _CURRENT
     me = ex.by_ident.get(_thread.get_ident()) if ex is not None else None
     if me is None or ex.finished:
-        raise ScheduleError("sleep() called outside a scheduled thread (a real wait is never allowed)")
+        raise UnscheduledSleep("sleep() called outside a scheduled thread (a real wait is never allowed)")
     ex._point(me, SLEEP, None)
 
 
@@ -646,10 +685,7 @@ class Execution:
         self.fair = len(self.threads) >= 3      # with two threads the sleep rule alone is already fair
         for t in self.threads:
             t.E = set(range(len(self.threads)))
-        import netqasm.sdk.classical_communication.thread_socket.socket_hub as hubmod
-        saved = (hubmod.sleep, hubmod.timer, _CURRENT)
-        hubmod.sleep = _sched_sleep
-        hubmod.timer = _frozen_timer
+        saved = _CURRENT
         _CURRENT = self
         try:
             for t in self.threads:
@@ -664,7 +700,7 @@ class Execution:
                 if t.thread.is_alive():
                     raise ScheduleError(f"thread {t.name} did not terminate")
         finally:
-            hubmod.sleep, hubmod.timer, _CURRENT = saved
+            _CURRENT = saved
         if self.error is not None or self.outcome == "broken":
             if isinstance(self.error, ScheduleError):
                 raise self.error
